@@ -505,7 +505,7 @@ pub fn run(ctx: &mut Ctx) {
         return run_long(ctx);
     }
     // exhaustive over view sizes 0..=max x 0..=max, all kinds, all placements from a small margin set
-    let max: u32 = if ctx.is_miri { 3 } else if ctx.quick() { 12 } else { 28 };
+    let max: u32 = if ctx.is_miri { 3 } else if ctx.quick() { 12 } else { 34 };
     let margins: Vec<[u32; 4]> = vec![[0, 0, 0, 0], [1, 2, 3, 1], [2, 0, 0, 3]];
     let mut cases = Vec::new();
     for kind in 0..7u8 {
